@@ -18,6 +18,8 @@
 -/
 import JaqVerif.Lemmas.C08Hash
 import JaqVerif.Lemmas.C08Val
+import JaqVerif.Lemmas.C08Eq
+import JaqVerif.Lemmas.C08Arr
 
 namespace Jaq.C08
 open Jaq
@@ -303,17 +305,355 @@ theorem huge_int_witness (hopen : Cfg.hugeIntBelowInfinity = false) :
     exact Int.compare_eq_lt.2 (by omega)
   · simp [cmp, cmpF, numCmp, hopen, Num.cmp, Num.undec, Val.size, h2]; decide
 
-/-! ## 5. Stated, not proved (see design/notes/C08.md)
+/-! ## 5. The repaired configuration: the property's domain without `NoHugeInt` (round 2)
 
-  * `eq_iff_cmp_eq  : InDom m a → InDom m b → WfKeys a → WfKeys b → NoNegZero a → NoNegZero b →
-       (eq a b = true ↔ cmp a b = .eq)`            (trichotomy with `==`; on numbers it follows from
-       `num_order` and `cmp_eq_imp`, on objects it needs "two strictly sorted key lists with the
-       same classes are pointwise equal")
-  * `hash_coherent  : eq a b = true → feed a = feed b`  on the same domain (numbers other than
-       floats need `F64.ofInt i ≠ -0.0` for every `i`; arrays are elementwise; objects as above)
-  * `has_congr / index_congr / insert_congr / extend_congr / merge_congr / update_congr /
-     obj_eq_insertion_order_irrelevant / unique_congr / indices_congr / contains_congr`
-       (each follows from `hash_coherent` + `eq` being an equivalence compatible with `cmp`).
+`InDomR m v` = NaN-free ∧ the `BigVsFloatGuard` of mode `m` ∧ machine integers fit an `isize`
+(the type invariant of `Num::Int(isize)`; the model's `Int` is unbounded).  On a tree with the
+repair of F-08b (`Cfg.hugeIntBelowInfinity`, read off the real code on every run) this is all the
+order theorems need: integers beyond the `f64` range are inside the domain. -/
+
+/-- on a tree with the repair of F-08b every value of the property's domain is in `InDom` -/
+theorem inDom_of_fixed (hh : Cfg.hugeIntBelowInfinity = true) (m : Mode) (v : Val)
+    (h : InDomR m v = true) : InDom m v = true := inDom_of_inDomR hh h
+
+/-- **`impl Ord for Val` is a total preorder on the property's domain, no `NoHugeInt`** (repaired
+configuration; all the corollaries of §1 and §3 follow through `inDom_of_fixed`) -/
+theorem val_order_fixed (hh : Cfg.hugeIntBelowInfinity = true) (m : Mode) :
+    TPO (fun v => InDomR m v = true) cmp :=
+  (val_order m).mono (fun v hv => inDom_of_fixed hh m v hv)
+
+/-- `sort` on the repaired configuration: a stably sorted permutation, no `NoHugeInt` -/
+theorem sort_fixed (hh : Cfg.hugeIntBelowInfinity = true) (m : Mode) (l : List Val)
+    (h : ∀ v ∈ l, InDomR m v = true) :
+    (sort l).Perm l ∧ Sorted cmp (sort l) ∧
+    ∀ e, InDomR m e = true → (sort l).filter (fun y => cmp e y == .eq) = l.filter (fun y => cmp e y == .eq) :=
+  ⟨sort_perm l, sort_sorted m l (fun v hv => inDom_of_fixed hh m v (h v hv)),
+   fun e he => sort_stable m l (fun v hv => inDom_of_fixed hh m v (h v hv)) e (inDom_of_fixed hh m e he)⟩
+
+set_option exponentiation.threshold 1100 in
+/-- the repaired domain contains integers beyond the `f64` range next to the infinities -/
+example : InDomR .infFloats (.arr [.num (.big (2 ^ 1024)), .num (.float F64.posInf), .num (.int (-5))]) = true := by
+  decide
+
+/-! ## 6. `==` is the order's `Equal` (trichotomy); hashing agrees with `==` (round 2)
+
+`WfKeys v`: every object inside `v` (at any depth, also inside keys) has pairwise non-equivalent
+keys — the invariant of `IndexMap` (the model's `Val.obj` is a raw association list); `Obj.insert`,
+`Obj.extend`, `Obj.ofList` preserve it (§7).  `NoNegZero v` is the guard of finding F-08: no `-0.0`
+inside `v` unless `Num::hash` normalises zero.  All sizes, all depths. -/
+
+/-- `==` (`impl PartialEq for Val`, with `IndexMap`'s hashed equality on objects) holds iff
+`Ord` says `Equal`.  Guards: `NoNegZero` (F-08) and, inside `InDom`, `NoHugeInt` (F-08b). -/
+theorem eq_iff_cmp_eq_partial (m : Mode) (a b : Val)
+    (ha : InDom m a = true) (hb : InDom m b = true) (ka : WfKeys a = true) (kb : WfKeys b = true)
+    (za : NoNegZero a = true) (zb : NoNegZero b = true) : eq a b = true ↔ cmp a b = .eq :=
+  eq_iff_cmp ⟨ha, ka, za⟩ ⟨hb, kb, zb⟩
+
+/-- **`==` iff `Ord` says `Equal`, on the property's whole domain** (repaired configuration) -/
+theorem eq_iff_cmp_eq (hz : Cfg.hashNormalisesZero = true) (hh : Cfg.hugeIntBelowInfinity = true)
+    (m : Mode) (a b : Val) (ha : InDomR m a = true) (hb : InDomR m b = true)
+    (ka : WfKeys a = true) (kb : WfKeys b = true) : eq a b = true ↔ cmp a b = .eq :=
+  eq_iff_cmp (good_of_fixed hz hh ha ka) (good_of_fixed hz hh hb kb)
+
+/-- **trichotomy: exactly one of `a < b`, `a == b`, `a > b`** (repaired configuration) -/
+theorem trichotomy (hz : Cfg.hashNormalisesZero = true) (hh : Cfg.hugeIntBelowInfinity = true)
+    (m : Mode) (a b : Val) (ha : InDomR m a = true) (hb : InDomR m b = true)
+    (ka : WfKeys a = true) (kb : WfKeys b = true) :
+    (cmp a b = .lt ∧ eq a b = false ∧ cmp b a = .gt) ∨
+    (cmp a b = .eq ∧ eq a b = true ∧ cmp b a = .eq) ∨
+    (cmp a b = .gt ∧ eq a b = false ∧ cmp b a = .lt) := by
+  have h := eq_iff_cmp_eq hz hh m a b ha hb ka kb
+  have hs := (val_order_fixed hh m).swap a b ha hb
+  cases hc : cmp a b with
+  | lt =>
+    refine Or.inl ⟨rfl, ?_, by rw [hs, hc]; rfl⟩
+    cases he : eq a b with
+    | false => rfl
+    | true => rw [h.1 he] at hc; cases hc
+  | eq => exact Or.inr (Or.inl ⟨rfl, h.2 hc, by rw [hs, hc]; rfl⟩)
+  | gt =>
+    refine Or.inr (Or.inr ⟨rfl, ?_, by rw [hs, hc]; rfl⟩)
+    cases he : eq a b with
+    | false => rfl
+    | true => rw [h.1 he] at hc; cases hc
+
+/-- the same with the guards of the pinned tree (holds in both configurations) -/
+theorem trichotomy_partial (m : Mode) (a b : Val)
+    (ha : InDom m a = true) (hb : InDom m b = true) (ka : WfKeys a = true) (kb : WfKeys b = true)
+    (za : NoNegZero a = true) (zb : NoNegZero b = true) :
+    (cmp a b = .lt ∧ eq a b = false) ∨ (cmp a b = .eq ∧ eq a b = true) ∨ (cmp a b = .gt ∧ eq a b = false) := by
+  have h := eq_iff_cmp_eq_partial m a b ha hb ka kb za zb
+  cases hc : cmp a b with
+  | lt =>
+    refine Or.inl ⟨rfl, ?_⟩
+    cases he : eq a b with
+    | false => rfl
+    | true => rw [h.1 he] at hc; cases hc
+  | eq => exact Or.inr (Or.inl ⟨rfl, h.2 hc⟩)
+  | gt =>
+    refine Or.inr (Or.inr ⟨rfl, ?_⟩)
+    cases he : eq a b with
+    | false => rfl
+    | true => rw [h.1 he] at hc; cases hc
+
+/-- numbers that are `==` make the same `Hasher` calls, whatever their representations: machine
+integer, big integer, float, decimal literal; `0`, `0.0`, `-0.0` once zero is normalised.
+(`Num.convFinite`: the conversion of a machine integer is finite — true for every `isize`,
+`ofInt_finite_of_wf`.) -/
+theorem num_hash_coherent_partial (a b : Num) (h : Num.eq a b = true)
+    (ha : Num.convFinite a = true) (hb : Num.convFinite b = true)
+    (za : Num.noNegZero a = true) (zb : Num.noNegZero b = true) : numFeed a = numFeed b :=
+  numFeed_coherent h ha hb za zb
+
+/-- `i as f64` is never `-0.0`, and finite for every machine integer -/
+theorem int_conversion_facts (i : Int) :
+    F64.ofInt i ≠ F64.negZero ∧ F64.isNaN (F64.ofInt i) = false ∧
+    (fitsIsize i = true → F64.isFinite (F64.ofInt i) = true) :=
+  ⟨ofInt_ne_negZero i, ofInt_not_nan i, ofInt_finite_of_wf i⟩
+
+/-- hash coherence with the guards of the pinned tree (holds in both configurations): values that
+are `==` make the same `Hasher` calls — numbers of every representation, text vs byte strings,
+arrays, objects independent of insertion order.  Without `NoNegZero`: `neg_zero_witness`. -/
+theorem hash_coherent_partial (m : Mode) (a b : Val)
+    (ha : InDom m a = true) (hb : InDom m b = true) (ka : WfKeys a = true) (kb : WfKeys b = true)
+    (za : NoNegZero a = true) (zb : NoNegZero b = true) (h : eq a b = true) : feed a = feed b :=
+  feed_of_eq ⟨ha, ka, za⟩ ⟨hb, kb, zb⟩ h
+
+/-- **hash coherence on the property's whole domain** (repaired configuration):
+`a == b → a` and `b` make the same `Hasher` calls -/
+theorem hash_coherent (hz : Cfg.hashNormalisesZero = true) (hh : Cfg.hugeIntBelowInfinity = true)
+    (m : Mode) (a b : Val) (ha : InDomR m a = true) (hb : InDomR m b = true)
+    (ka : WfKeys a = true) (kb : WfKeys b = true) (h : eq a b = true) : feed a = feed b :=
+  feed_of_eq (good_of_fixed hz hh ha ka) (good_of_fixed hz hh hb kb) h
+
+/-- a non-trivial instance of the hypotheses: `{"a":1, "b":[1.0, "x"]}` against the same object
+built in the other insertion order with other representations (`1.0` for `1`, the literal `1e0`
+for `1.0`, a byte string for the text string) -/
+example :
+    let a : Val := .obj [(.tstr [97], .num (.int 1)), (.tstr [98], .arr [.num (.float 0x3ff0000000000000), .tstr [120]])]
+    let b : Val := .obj [(.bstr [98], .arr [.num (.dec "1e0"), .bstr [120]]), (.tstr [97], .num (.float 0x3ff0000000000000))]
+    InDomR .smallInts a = true ∧ InDomR .smallInts b = true ∧ WfKeys a = true ∧ WfKeys b = true ∧
+    eq a b = true := by
+  decide
+
+/-! ## 7. Values that are `==` are interchangeable (round 2)
+
+Vocabulary (defined in `Lemmas/C08Eq.lean`, `Lemmas/C08Cong.lean`, spelled out by `good_iff`,
+`eqv_iff`, `keysEqv_iff`):
+`Good m v`      = `InDom m v ∧ WfKeys v ∧ NoNegZero v` (on the repaired tree: `InDomR m v ∧ WfKeys v`,
+                  `good_fixed`);
+`Eqv m a b`     = `Good m a ∧ Good m b ∧ a == b`;
+`All2 R l l'`   = the lists have the same length and are related by `R` position by position;
+`KeysEqv m R o o'` = entry lists that agree position by position up to `==` of the keys, with the
+                  values related by `R` ("some keys were replaced by `==` ones").
+`OptRel R` lifts `R` to optional results (both absent, or both present and related). -/
+
+theorem good_iff (m : Mode) (v : Val) :
+    Good m v ↔ InDom m v = true ∧ WfKeys v = true ∧ NoNegZero v = true :=
+  ⟨fun g => ⟨g.dom, g.keys, g.nz⟩, fun ⟨a, b, c⟩ => ⟨a, b, c⟩⟩
+
+/-- on the repaired tree the hypotheses are: the property's domain and the `IndexMap` invariant -/
+theorem good_fixed (hz : Cfg.hashNormalisesZero = true) (hh : Cfg.hugeIntBelowInfinity = true)
+    (m : Mode) (v : Val) (hd : InDomR m v = true) (hk : WfKeys v = true) : Good m v :=
+  good_of_fixed hz hh hd hk
+
+theorem eqv_iff (m : Mode) (a b : Val) : Eqv m a b ↔ Good m a ∧ Good m b ∧ eq a b = true :=
+  ⟨fun h => ⟨h.ga, h.gb, h.e⟩, fun ⟨x, y, z⟩ => ⟨x, y, z⟩⟩
+
+theorem keysEqv_iff (m : Mode) (R : Val → Val → Prop) (o o' : Entries) :
+    KeysEqv m R o o' ↔ All2 (fun p q => Eqv m p.1 q.1 ∧ R p.2 q.2) o o' := Iff.rfl
+
+/-- `==` is an equivalence relation on the domain -/
+theorem eqv_equivalence (m : Mode) :
+    (∀ a, Good m a → Eqv m a a) ∧ (∀ a b, Eqv m a b → Eqv m b a) ∧
+    (∀ a b c, Eqv m a b → Eqv m b c → Eqv m a c) :=
+  ⟨fun _ g => Eqv.refl g, fun _ _ h => h.symm, fun _ _ _ h1 h2 => h1.trans h2⟩
+
+/-- ... and a congruence for everything the look-ups consult: the order, `==`, and the
+`Hasher` calls -/
+theorem eqv_indistinguishable (m : Mode) (a a' b b' : Val) (h1 : Eqv m a a') (h2 : Eqv m b b') :
+    cmp a b = cmp a' b' ∧ eq a b = eq a' b' ∧ feed a = feed a' :=
+  ⟨Eqv.cmp_congr h1 h2, Eqv.eq_congr h1 h2, h1.feed_eq⟩
+
+/-- `.[$k]` / `has($k)`: looking up a key that is `==` gives the same result (the same entry) -/
+theorem get_has_congr (m : Mode) (o : Entries) (k k' : Val) (g : Good m (.obj o)) (hk : Eqv m k k') :
+    Obj.get o k = Obj.get o k' ∧ Obj.has o k = Obj.has o k' := by
+  have hr : KeysEqv m Eq o o := KeysEqv.refl_of (fun p hp => (g.obj p hp).1) (fun _ _ => rfl)
+  refine ⟨?_, has_all2 hr hk⟩
+  have := get_all2 hr hk
+  revert this
+  cases Obj.get o k <;> cases Obj.get o k' <;> simp [OptRel]
+
+/-- ... also when keys inside the object were replaced by `==` ones -/
+theorem get_has_congr_entries (m : Mode) (R : Val → Val → Prop) (o o' : Entries) (k k' : Val)
+    (h : KeysEqv m R o o') (hk : Eqv m k k') :
+    OptRel R (Obj.get o k) (Obj.get o' k') ∧ Obj.has o k = Obj.has o' k' :=
+  ⟨get_all2 h hk, has_all2 h hk⟩
+
+/-- `IndexMap::insert` (object construction, `.[$k] = v`): a key that is `==` hits the same slot -/
+theorem insert_congr (m : Mode) (R : Val → Val → Prop) (o o' : Entries) (k k' v v' : Val)
+    (h : KeysEqv m R o o') (hk : Eqv m k k') (hv : R v v') :
+    KeysEqv m R (Obj.insert o k v) (Obj.insert o' k' v') := insert_all2 h hk hv
+
+/-- object `+` (`IndexMap::extend`) and object construction (`Obj.ofList = extend []`) -/
+theorem extend_congr (m : Mode) (R : Val → Val → Prop) (o o' kvs kvs' : Entries)
+    (h : KeysEqv m R o o') (hk : KeysEqv m R kvs kvs') :
+    KeysEqv m R (Obj.extend o kvs) (Obj.extend o' kvs') := extend_all2 hk h
+
+/-- updates at a key (`|=`, `=`, `del`: `map_index` on an object), for update functions that
+respect `R` -/
+theorem update_congr (m : Mode) (R : Val → Val → Prop) (o o' : Entries) (k k' : Val)
+    (f f' : Val → Option Val) (h : KeysEqv m R o o') (hk : Eqv m k k')
+    (hf : ∀ v v', R v v' → OptRel R (f v) (f' v')) (hnull : OptRel R (f .null) (f' .null)) :
+    KeysEqv m R (Obj.update o k f) (Obj.update o' k' f') := update_all2 h hk hf hnull
+
+/-- recursive merge `*` (`obj_merge`, the loop at every fuel `n`; `Obj.merge` instantiates `n`
+from the operand sizes): replacing keys of either operand by `==` ones (values identical) gives
+the same result up to those keys -/
+theorem merge_congr_keys (m : Mode) (n : Nat) (l l' r r' : Entries)
+    (hl : KeysEqv m Eq l l') (hr : KeysEqv m Eq r r') :
+    KeysEqv m Eq (Obj.mergeF n l r) (Obj.mergeF n l' r') := mergeF_all2 n hr hl
+
+/-- ... and `Obj.merge` itself (`l * r`): values that are `==` have the same size (`eqv_same_size`),
+so both sides run with the same fuel -/
+theorem merge_congr (m : Mode) (l l' r r' : Entries) (hl : KeysEqv m Eq l l') (hr : KeysEqv m Eq r r') :
+    KeysEqv m Eq (Obj.merge l r) (Obj.merge l' r') := merge_all2 hl hr
+
+theorem eqv_same_size (m : Mode) (a b : Val) (h : Eqv m a b) : a.size = b.size := h.size_eq
+
+/-- "up to `==`": entry lists that agree up to `==` of keys and values are `==` objects (and the
+second inherits the hypotheses) -/
+theorem obj_eq_of_entries (m : Mode) (o o' : Entries) (h : KeysEqv m (Eqv m) o o') (g : Good m (.obj o)) :
+    Eqv m (.obj o) (.obj o') := obj_eqv_of_keysEqv h g
+
+/-- **objects that differ only in insertion order are `==`**, compare `Equal`, and make the same
+`Hasher` calls -/
+theorem obj_eq_insertion_order_irrelevant (m : Mode) (x y : Entries) (g : Good m (.obj x)) (hp : x.Perm y) :
+    eq (.obj x) (.obj y) = true ∧ cmp (.obj x) (.obj y) = .eq ∧ feed (.obj x) = feed (.obj y) :=
+  have h := obj_perm_eqv g hp
+  ⟨h.e, h.cmp_eq, h.feed_eq⟩
+
+/-- the `IndexMap` invariant (and the rest of `Good`) is preserved by `insert`, `+` and object
+construction: with hashing coherent, no object with two `==` keys is ever built -/
+theorem wfKeys_insert_extend_ofList (m : Mode) (o kvs : Entries) (k v : Val) (g : Good m (.obj o))
+    (gk : Good m k) (gv : Good m v) (hkvs : ∀ p ∈ kvs, Good m p.1 ∧ Good m p.2) :
+    Good m (.obj (Obj.insert o k v)) ∧ Good m (.obj (Obj.extend o kvs)) ∧ Good m (.obj (Obj.ofList kvs)) :=
+  ⟨good_insert g gk gv, good_extend kvs g hkvs, good_ofList kvs hkvs⟩
+
+/-- `sort`, `group_by(.)`, `unique`: replacing elements by `==` ones gives the same result up to
+`==`, position by position (same grouping, same representatives' positions) -/
+theorem sort_group_unique_congr (m : Mode) (l l' : List Val) (h : All2 (Eqv m) l l') :
+    All2 (Eqv m) (sort l) (sort l') ∧ All2 (All2 (Eqv m)) (groupBy l) (groupBy l') ∧
+    All2 (Eqv m) (unique l) (unique l') :=
+  ⟨sort_all2 h, groupBy_all2 h, unique_all2 h⟩
+
+/-- array subtraction `l - r` -/
+theorem array_sub_congr (m : Mode) (l l' r r' : List Val) (hl : All2 (Eqv m) l l') (hr : All2 (Eqv m) r r') :
+    All2 (Eqv m) (sub l r) (sub l' r') := sub_all2 hl hr
+
+/-- `indices` (hence `index`, `rindex`) on arrays: the same positions, for a searched value and
+for a searched sub-array -/
+theorem indices_congr (m : Mode) (x x' : List Val) (y y' : Val) (hx : All2 (Eqv m) x x') (hy : Eqv m y y') :
+    indices x y = indices x' y' := indices_all2 hx hy
+
+/-! ## 8. More about `sort`, `min`/`max`, `unique` (round 2) -/
+
+/-- `min` / `max` return an element of the input that is extremal for the order -/
+theorem min_max_extremal (m : Mode) (l : List Val) (h : ∀ v ∈ l, InDom m v = true) :
+    (∀ r, minOf l = some r → r ∈ l ∧ ∀ z ∈ l, cmp r z ≠ .gt) ∧
+    (∀ r, maxOf l = some r → r ∈ l ∧ ∀ z ∈ l, cmp z r ≠ .gt) ∧
+    (l ≠ [] → (minOf l).isSome = true ∧ (maxOf l).isSome = true) := by
+  have hT := val_order m
+  cases l with
+  | nil => exact ⟨fun r hr => (by cases hr), fun r hr => (by cases hr), fun hne => absurd rfl hne⟩
+  | cons x xs =>
+    have sx := h x (by simp)
+    have hxs : ∀ z ∈ xs, InDom m z = true := fun z hz => h z (by simp [hz])
+    have h1 := foldl_min_spec hT xs x [x] (by simp) (fun z hz => by
+      have : z = x := by simpa using hz
+      subst this; exact sx) hxs (fun z hz => by
+      have : z = x := by simpa using hz
+      subst this; rw [hT.refl z sx]; simp)
+    have h2 := foldl_max_spec hT xs x [x] (by simp) (fun z hz => by
+      have : z = x := by simpa using hz
+      subst this; exact sx) hxs (fun z hz => by
+      have : z = x := by simpa using hz
+      subst this; rw [hT.refl z sx]; simp)
+    refine ⟨?_, ?_, fun _ => ⟨rfl, rfl⟩⟩
+    · intro r hr
+      simp only [minOf, Option.some.injEq] at hr
+      subst hr
+      exact h1
+    · intro r hr
+      simp only [maxOf, Option.some.injEq] at hr
+      subst hr
+      exact h2
+
+/-- `unique` is literally the sorted array with every run of adjacent `==` elements reduced to
+its first (`dedupLoop`) -/
+theorem unique_is_sorted_dedup (l : List Val) :
+    unique l = match sort l with
+      | [] => []
+      | x :: xs => dedupLoop x xs := unique_eq_dedup l
+
+/-- ... hence strictly increasing, made of elements of the input, one for every class -/
+theorem unique_spec (m : Mode) (l : List Val) (h : ∀ v ∈ l, Good m v) :
+    SSorted cmp (unique l) ∧ (∀ u ∈ unique l, u ∈ l) ∧ (∀ x ∈ l, ∃ u ∈ unique l, eq u x = true) := by
+  have hs := sort_sorted m l (fun v hv => (h v hv).dom)
+  have hp := sort_perm l
+  rw [unique_eq_dedup]
+  revert hs hp
+  cases sort l with
+  | nil =>
+    intro _ hp
+    have : l = [] := by simpa using hp.symm
+    subst this
+    exact ⟨List.Pairwise.nil, fun u hu => (by cases hu), fun x hx => (by cases hx)⟩
+  | cons x xs =>
+    intro hs hp
+    have gx : Good m x := h x (hp.mem_iff.1 (by simp))
+    have gxs : ∀ z ∈ xs, Good m z := fun z hz => h z (hp.mem_iff.1 (by simp [hz]))
+    exact ⟨dedupLoop_ssorted xs x gx gxs hs,
+      fun u hu => hp.mem_iff.1 (dedupLoop_mem xs x u hu),
+      fun z hz => dedupLoop_cover xs x gx gxs z (hp.mem_iff.2 hz)⟩
+
+example : unique [.tstr [98], .bstr [97], .tstr [97], .null, .bstr [98]] =
+    [.null, .bstr [97], .tstr [98]] := by rfl
+
+/-- **`bsearch` on a sorted array** (`bsearchSpec` = the answers std's `binary_search_by` may give):
+every admissible answer `r` is either the index of an element that compares `Equal` to `x`, or
+`-1 - i` where no element compares `Equal`, the first `i` elements are all below `x` and the rest
+all above — inserting `x` at `i` keeps the array sorted -/
+theorem bsearch_sorted (m : Mode) (a : List Val) (x : Val) (ha : ∀ v ∈ a, InDom m v = true)
+    (hx : InDom m x = true) (hs : Sorted cmp a) :
+    ∀ r ∈ bsearchSpec a x,
+      (0 ≤ r ∧ ∃ v, a[r.toNat]? = some v ∧ cmp v x = .eq) ∨
+      (∃ i : Nat, r = -1 - (i : Int) ∧ i ≤ a.length ∧ (∀ v ∈ a, cmp v x ≠ .eq) ∧
+        (∀ v ∈ a.take i, cmp v x = .lt) ∧ (∀ v ∈ a.drop i, cmp v x = .gt)) :=
+  bsearchSpec_sorted a x ha hx hs
+
+/-- `bsearch` never has no answer -/
+theorem bsearch_total (a : List Val) (x : Val) : bsearchSpec a x ≠ [] := by
+  unfold bsearchSpec
+  dsimp only
+  split
+  · simp
+  · rename_i h; intro hc; rw [hc] at h; exact h rfl
+
+/-! ## 9. Stated, not proved (see design/notes/C08.md)
+
+  * `contains_congr` (`contains` / `inside`): `contains a b = contains a' b'` for `Eqv m a a'`,
+    `Eqv m b b'` — false as stated for strings: `contains` on two text strings or two byte strings is
+    substring search, on a text and a byte string it is `==`, so replacing a text string by the `==`
+    byte string changes the answer (the check does not alarm on it: the property's wording is about
+    look-up of values).  True without byte strings; needs the extensional characterisation of
+    object `==` (`∀ k, get x k ≈ get y k`) because the operands may differ in insertion order.
+  * `merge_congr` for operands whose *values* are only `==` (nested objects in another insertion
+    order, other representations inside the values): needs the same extensional characterisation.
+  * `wfKeys_update`, `wfKeys_merge` (the invariant is preserved by `update` and `merge`).
+  * `minOf l = (sort l).head?`, `maxOf l = (sort l).getLast?` (which of several extremal elements
+    is returned: the first minimal / the last maximal); `unique` keeps the *first* of each class in
+    input order (follows from `sort_stable` + `unique_is_sorted_dedup`, not written out).
   These are exercised on every run by the correspondence (model = code) together with the
   real-code oracle (`a == b` ⇒ equal `Hasher` calls and interchangeability in 19 templates).
 -/
